@@ -163,6 +163,30 @@ def run_prop(chk: Check, which: str) -> None:
             chk.sample({"episode": ep.to_json(), "writes": [(round(t, 6), f[:40]) for t, f in res.writes][:8],
                         "outcomes": {i: (round(o[0], 6), o[1], o[2][:50]) for i, o in res.outcomes.items()}, "final": res.final_state})
     if which == "C08":
+        # a caller that gives up while still queued, between a command in flight and a live one behind it, all echoes
+        # lost: the one in flight and the one behind are each sent exactly 1 + min(max_retries, 3) times, the dead one never
+        for mr_a, mr_b, mr_c in ((0, 3, 3), (3, 0, 3), (3, 3, 0), (1, 5, 2), (2, 0, 5), (0, 0, 1), (5, 1, 0)):
+            for b_timeout in (0.3, 1.0, 2.5):
+                ep = qos.Episode()
+                ep.mode = False
+                ep.calls = [{"t": 0.0, "cmd": 0, "prio": 0, "max_retries": mr_a, "timeout": 20.0, "wfr": None},
+                            {"t": 0.01, "cmd": 3, "prio": 0, "max_retries": mr_b, "timeout": b_timeout, "wfr": None},
+                            {"t": 0.02, "cmd": 6, "prio": 0, "max_retries": mr_c, "timeout": 20.0, "wfr": None}]
+                for cmd in (0, 3, 6):
+                    for nn in range(1, 8):
+                        ep.tx[(cmd, nn)] = {"echo": None, "reply": None, "dup": False, "fail": False}
+                res = qos.run_episode(ep)
+                chk.evaluations += 1
+                score_c08(chk, ep, res)
+                fail_a = [0.5, 1.5, 3.5, 7.5][limit_of(ep.calls[0]) - 1]
+                counts = [sum(1 for i in res.write_calls if i == k) for k in range(3)]
+                # (the second command's own count depends on where the back-off stands when it starts: only bounded here)
+                want = [limit_of(ep.calls[0]), counts[1], limit_of(ep.calls[2])]
+                if b_timeout <= fail_a + 1e-6:
+                    want[1] = 0
+                if counts != want or counts[1] > limit_of(ep.calls[1]):
+                    chk.violation("c08.exact_budget_queue", f"max_retries {mr_a}/{mr_b}/{mr_c}, the second caller gives up after {b_timeout} s: "
+                                  f"transmissions per command {counts}, expected {want}", {"episode": ep.to_json()})
         for mr in range(0, 6):
             for timeout in (20.0, 30.0, 7.5, 5.0, 3.5, 1.0, 0.4):
                 for cmd in (0, 4, 7):
